@@ -19,11 +19,13 @@ be left intact."""
 import copy
 import itertools
 
-EPS = ("Deserializer", "deserialize_structure", "field", "array", "map", "subclass", "optional")
+EPS = ("Deserializer", "deserialize_structure", "field", "array", "map", "subclass", "optional", "set", "tuple")
 KEEP = (None, True, False)
 TRUSTED = (False, True)
 CAMEL = (False, True)
-ALL_COMBOS = [(ep, ku, tr, cc) for ep in EPS for ku in KEEP for tr in TRUSTED for cc in CAMEL]
+# every entry point x keep_undefined x direct_trusted_mapping; camel_case_convert on the three main entry points
+ALL_COMBOS = [(ep, ku, tr, False) for ep in EPS for ku in KEEP for tr in TRUSTED] + \
+             [(ep, ku, tr, True) for ep in EPS[:3] for ku in KEEP for tr in TRUSTED]
 
 
 def _base():
@@ -118,10 +120,10 @@ def lattice_specs(doc, latest):
 def build_classes(spec, maps):
     """-> dict of entry-point name -> class (V itself for the top-level entry points)."""
     from typedpy import (Versioned, Structure, ImmutableStructure, Anything, Array, Map, String, Integer, Float,
-                         Boolean, AnyOf, NoneField)
+                         Boolean, AnyOf, NoneField, Set, Tuple)
     ns = {"Versioned": Versioned, "Structure": Structure, "ImmutableStructure": ImmutableStructure,
           "Anything": Anything, "Array": Array, "Map": Map, "String": String, "Integer": Integer, "Float": Float,
-          "Boolean": Boolean, "AnyOf": AnyOf, "NoneField": NoneField, "maps": maps}
+          "Boolean": Boolean, "AnyOf": AnyOf, "NoneField": NoneField, "Set": Set, "Tuple": Tuple, "maps": maps}
     src = ""
     nested = 0
     decls = []
@@ -149,6 +151,8 @@ def build_classes(spec, maps):
             "class OuterA(Structure):\n    vs = Array[V]\n    _required = []\n"
             "class OuterM(Structure):\n    vm = Map[String, V]\n    _required = []\n"
             "class OuterO(Structure):\n    vo = AnyOf[V, NoneField]\n    _required = []\n"
+            "class OuterS(Structure):\n    vt = Set[V]\n    _required = []\n"
+            "class OuterT(Structure):\n    vu = Tuple[V, V]\n    _required = []\n"
             )
     if spec.get("immutable"):          # an ImmutableStructure cannot be extended: the subclass IS the class
         src += "Sub = V\n"
@@ -156,7 +160,7 @@ def build_classes(spec, maps):
         src += f"class Sub(V):\n    zz_sub = Anything\n    _required = {spec['required']!r}\n"
     exec(src, ns)
     return {"V": ns["V"], "field": ns["OuterF"], "array": ns["OuterA"], "map": ns["OuterM"], "optional": ns["OuterO"],
-            "subclass": ns["Sub"], "src": src}
+            "set": ns["OuterS"], "tuple": ns["OuterT"], "subclass": ns["Sub"], "src": src}
 
 
 # ------------------------------------------------------------------ running one combination
@@ -187,6 +191,10 @@ def wrap_doc(ep, doc):
         return {"vm": {"k1": doc}}
     if ep == "optional":
         return {"vo": doc}
+    if ep == "set":
+        return {"vt": [doc]}
+    if ep == "tuple":
+        return {"vu": [doc, copy.deepcopy(doc)]}
     return doc
 
 
@@ -200,6 +208,10 @@ def unwrap(ep, inst):
         return list(inst.vm.values()) if getattr(inst, "vm", None) is not None else []
     if ep == "optional":
         return [inst.vo] if getattr(inst, "vo", None) is not None else []
+    if ep == "set":
+        return list(inst.vt) if getattr(inst, "vt", None) is not None else []
+    if ep == "tuple":
+        return list(inst.vu) if getattr(inst, "vu", None) is not None else []
     return [inst]
 
 
